@@ -1,8 +1,10 @@
 package tl
 
 import (
+	"bytes"
 	"encoding/json"
 	"fmt"
+	"io"
 	"os"
 	"os/exec"
 	"path/filepath"
@@ -13,60 +15,98 @@ import (
 	"verifharness/hk"
 )
 
-// Main runs a TaskLane property driver. The scenarios run in a child process (same binary) whose
-// race reports go to files (GORACE log_path, halt_on_error=0, exitcode=66); the parent turns a
-// report into a "VIOL race ..." case line, so a data race in the code under test is reported like
-// any other violation of the property, and a race report can never get lost in stderr.
-func Main(id string, families func(en *Engine)) {
-	if os.Getenv("TL_CHILD") == "1" {
+// Family is a named group of scenarios that runs in a process of its own.
+type Family struct {
+	Name string
+	Run  func(en *Engine)
+}
+
+// Main runs a TaskLane property driver. Every family runs in a CHILD process (the same binary,
+// TL_CHILD=<family>): a regression that crashes the process from inside a lane goroutine (a panic
+// in the recover handler, a fatal runtime error) kills one child, and the parent turns it into
+//
+//	VIOL crash <family> <last scenario> <stderr tail>
+//
+// instead of a dead harness. The children write the race detector's reports to files (GORACE
+// log_path, halt_on_error=0, exitcode=66); the parent turns each distinct report into
+//
+//	VIOL race <access1>|<access2> reports=<n>
+//
+// so that a data race in the code under test is reported like any other violation and can never
+// get lost in stderr. The parent concatenates the children's cases and merges their stats.
+func Main(id string, fams []Family) {
+	if name := os.Getenv("TL_CHILD"); name != "" {
 		hk.Main(id, func(e *hk.Env) error {
 			en := NewEngine(e)
+			en.progress = filepath.Join(e.Out, "progress")
 			if e.Replay != "" {
 				en.Only = replayName(e.Replay)
 				e.Stats["replay_scenario"] = en.Only
 			}
 			en.Calibrate()
-			families(en)
+			for _, f := range fams {
+				if f.Name == name {
+					f.Run(en)
+				}
+			}
 			en.WriteStats()
 			return nil
 		})
 		return
 	}
 	out := ""
+	outIdx := -1
 	for i, a := range os.Args {
 		if (a == "-out" || a == "--out") && i+1 < len(os.Args) {
-			out = os.Args[i+1]
-		} else if strings.HasPrefix(a, "-out=") {
-			out = a[5:]
+			out, outIdx = os.Args[i+1], i+1
 		}
 	}
 	if out == "" {
-		fmt.Fprintln(os.Stderr, "-out required")
+		fmt.Fprintln(os.Stderr, "usage: -out <dir> [-tier quick|thorough] [-seed n] [-replay file]")
 		os.Exit(2)
 	}
 	os.MkdirAll(out, 0o755)
-	prefix := filepath.Join(out, "racelog")
-	cmd := exec.Command(os.Args[0], os.Args[1:]...)
-	cmd.Env = append(os.Environ(), "TL_CHILD=1", "GORACE=halt_on_error=0 exitcode=66 log_path="+prefix)
-	cmd.Stdout, cmd.Stderr = os.Stdout, os.Stderr
-	err := cmd.Run()
-	rc := 0
+	cases, err := os.Create(filepath.Join(out, "cases.txt"))
 	if err != nil {
-		rc = 1
-		if ee, ok := err.(*exec.ExitError); ok {
-			rc = ee.ExitCode()
+		fmt.Fprintln(os.Stderr, err)
+		os.Exit(2)
+	}
+	merged := map[string]any{}
+	perFamily := map[string]any{}
+	exit := 0
+	for _, f := range fams {
+		cdir := filepath.Join(out, "fam-"+f.Name)
+		os.MkdirAll(cdir, 0o755)
+		args := append([]string(nil), os.Args[1:]...)
+		args[outIdx-1] = cdir
+		prefix := filepath.Join(cdir, "racelog")
+		cmd := exec.Command(os.Args[0], args...)
+		cmd.Env = append(os.Environ(), "TL_CHILD="+f.Name, "GORACE=halt_on_error=0 exitcode=66 log_path="+prefix)
+		var errbuf bytes.Buffer
+		cmd.Stdout = os.Stdout
+		cmd.Stderr = io.MultiWriter(&tailWriter{buf: &errbuf, max: 1 << 16}, os.Stderr)
+		rc := 0
+		if err := cmd.Run(); err != nil {
+			rc = 1
+			if ee, ok := err.(*exec.ExitError); ok {
+				rc = ee.ExitCode()
+			}
 		}
-	}
-	logs, _ := filepath.Glob(prefix + ".*")
-	var reports []string
-	for _, l := range logs {
-		b, _ := os.ReadFile(l)
-		reports = append(reports, summarizeRaces(string(b))...)
-		os.Remove(l)
-	}
-	if len(reports) > 0 {
-		f, e2 := os.OpenFile(filepath.Join(out, "cases.txt"), os.O_APPEND|os.O_WRONLY|os.O_CREATE, 0o644)
-		if e2 == nil {
+		// the child's cases
+		if b, err := os.ReadFile(filepath.Join(cdir, "cases.txt")); err == nil {
+			cases.Write(b)
+			if len(b) > 0 && b[len(b)-1] != '\n' {
+				cases.WriteString("\n")
+			}
+		}
+		// race reports
+		logs, _ := filepath.Glob(prefix + ".*")
+		var reports []string
+		for _, l := range logs {
+			b, _ := os.ReadFile(l)
+			reports = append(reports, summarizeRaces(string(b))...)
+		}
+		if len(reports) > 0 {
 			seen := map[string]int{}
 			for _, r := range reports {
 				seen[r]++
@@ -77,28 +117,155 @@ func Main(id string, families func(en *Engine)) {
 			}
 			sort.Strings(keys)
 			for _, k := range keys {
-				fmt.Fprintf(f, "VIOL race %s reports=%d\n", k, seen[k])
-			}
-			f.Close()
-		}
-		// stats: note the races
-		sp := filepath.Join(out, "stats.json")
-		if b, e3 := os.ReadFile(sp); e3 == nil {
-			m := map[string]any{}
-			if json.Unmarshal(b, &m) == nil {
-				m["data_race_reports"] = len(reports)
-				nb, _ := json.MarshalIndent(m, "", " ")
-				os.WriteFile(sp, nb, 0o644)
+				fmt.Fprintf(cases, "VIOL race %s reports=%d family=%s\n", k, seen[k], f.Name)
 			}
 		}
-		if rc == 66 {
-			rc = 0 // reported through the VIOL lines
+		st := map[string]any{}
+		if b, err := os.ReadFile(filepath.Join(cdir, "stats.json")); err == nil {
+			json.Unmarshal(b, &st)
+		}
+		st["data_race_reports"] = len(reports)
+		switch {
+		case rc == 0, rc == 66 && len(reports) > 0:
+		case rc == 3:
+			exit = 3 // harness error reported by hk.Main
+		default:
+			// the process died: unrecovered panic in a lane goroutine, fatal error, signal
+			last := "?"
+			if b, err := os.ReadFile(filepath.Join(cdir, "progress")); err == nil && len(b) > 0 {
+				last = strings.TrimSpace(string(b))
+			}
+			fmt.Fprintf(cases, "VIOL crash %s %s rc=%d %s\n", f.Name, last, rc, crashTail(errbuf.String()))
+			st["crashed"] = true
+		}
+		perFamily[f.Name] = st
+		mergeStats(merged, st)
+		os.RemoveAll(cdir)
+	}
+	cases.Close()
+	merged["by_family_process"] = perFamily
+	sb, _ := json.MarshalIndent(merged, "", " ")
+	os.WriteFile(filepath.Join(out, "stats.json"), sb, 0o644)
+	os.Exit(exit)
+}
+
+type tailWriter struct {
+	buf *bytes.Buffer
+	max int
+}
+
+func (t *tailWriter) Write(p []byte) (int, error) {
+	t.buf.Write(p)
+	if t.buf.Len() > 2*t.max {
+		b := t.buf.Bytes()
+		nb := append([]byte(nil), b[len(b)-t.max:]...)
+		t.buf.Reset()
+		t.buf.Write(nb)
+	}
+	return len(p), nil
+}
+
+var addrRe = regexp.MustCompile(`0x[0-9a-f]+|\+0x[0-9a-f]+|goroutine \d+`)
+
+// crashTail keeps what identifies a crash: the "panic:" / "fatal error:" lines and the first frames.
+func crashTail(stderr string) string {
+	lines := strings.Split(stderr, "\n")
+	start := -1
+	for i, l := range lines {
+		if strings.HasPrefix(l, "panic:") || strings.HasPrefix(l, "fatal error:") {
+			start = i
+			break
 		}
 	}
-	os.Exit(rc)
+	if start < 0 {
+		start = len(lines) - 12
+		if start < 0 {
+			start = 0
+		}
+	}
+	var keep []string
+	for _, l := range lines[start:] {
+		l = strings.TrimSpace(addrRe.ReplaceAllString(l, ""))
+		if l == "" {
+			continue
+		}
+		keep = append(keep, strings.ReplaceAll(l, " ", "_"))
+		if len(keep) >= 10 {
+			break
+		}
+	}
+	s := strings.Join(keep, "|")
+	if len(s) > 600 {
+		s = s[:600]
+	}
+	return s
+}
+
+// mergeStats adds the numbers of b into a (ints summed, maps merged recursively, "max_*" keys by
+// maximum, bools and-ed, lists concatenated up to 8 entries).
+func mergeStats(a, b map[string]any) {
+	for k, v := range b {
+		switch x := v.(type) {
+		case float64:
+			old, _ := a[k].(float64)
+			if strings.HasPrefix(k, "max_") {
+				if x > old {
+					old = x
+				}
+				a[k] = old
+			} else {
+				a[k] = old + x
+			}
+		case bool:
+			if old, ok := a[k].(bool); ok {
+				if k == "done_sites_as_expected" {
+					a[k] = old && x
+				} else {
+					a[k] = old || x
+				}
+			} else {
+				a[k] = x
+			}
+		case map[string]any:
+			old, ok := a[k].(map[string]any)
+			if !ok {
+				old = map[string]any{}
+			}
+			if strings.HasPrefix(k, "max_") {
+				for kk, vv := range x {
+					f, _ := vv.(float64)
+					o, _ := old[kk].(float64)
+					if f > o {
+						o = f
+					}
+					old[kk] = o
+				}
+			} else if k == "done_sites" {
+				for kk, vv := range x {
+					old[kk] = vv
+				}
+			} else {
+				mergeStats(old, x)
+			}
+			a[k] = old
+		case []any:
+			old, _ := a[k].([]any)
+			for _, e := range x {
+				if len(old) < 8 {
+					old = append(old, e)
+				}
+			}
+			a[k] = old
+		default:
+			if _, ok := a[k]; !ok {
+				a[k] = v
+			}
+		}
+	}
 }
 
 var raceFrame = regexp.MustCompile(`(?m)^  (\S+)\(.*\)\n\s+(\S+?):(\d+)`)
+var raceSection = regexp.MustCompile(`(?m)^(?:Read|Write|Previous read|Previous write|Atomic|Previous atomic)[^\n]* by [^\n]*:\n`)
 
 // summarizeRaces turns each "WARNING: DATA RACE" block into "<access1-fn>@file:line|<access2-fn>@file:line".
 func summarizeRaces(log string) []string {
@@ -108,7 +275,7 @@ func summarizeRaces(log string) []string {
 			continue
 		}
 		var tops []string
-		for _, sec := range regexp.MustCompile(`(?m)^(?:Read|Write|Previous read|Previous write|Atomic|Previous atomic)[^\n]* by [^\n]*:\n`).Split(blk, -1)[1:] {
+		for _, sec := range raceSection.Split(blk, -1)[1:] {
 			if m := raceFrame.FindStringSubmatch(sec); m != nil {
 				fn := m[1]
 				if i := strings.LastIndex(fn, "/"); i >= 0 {
